@@ -2161,7 +2161,9 @@ impl<'store> FindTextSelectionsIter<'store> {
                 self.textseliters.push((
                     self.resource
                         .range(begin, self.refset.begin().unwrap() + 1),
-                    true,
+                    //the limit is about where the found items *end* (they may begin anywhere before that),
+                    //so with a limit we search backwards: end must be in range above
+                    limit.is_none(),
                 ));
             }
             TextSelectionOperator::Succeeds {
